@@ -38,8 +38,12 @@ func runCaps(e *capsEntry, implicit bool, n int) []string {
 	var problems []string
 	bad := func(f string, a ...interface{}) { problems = append(problems, fmt.Sprintf(f, a...)) }
 	c := e.Cfg
+	external := e.Active && !c.TlsConfigured // TLS supplied by the caller's listener
+	if external {
+		implicit = true
+	}
 	srv := drv.Start(drv.Cfg{LMTP: c.Lmtp, MaxRcpt: c.MaxRcpt, MaxBytes: int64(c.MaxBytes), MaxLine: 2000, TLSAvail: c.TlsConfigured,
-		ImplicitTLS: implicit, InsecureAuth: c.InsecureAuth, AuthBackend: c.AuthBackend, UTF8: c.Utf8, RequireTLS: c.RequireTLS,
+		ImplicitTLS: implicit, ExternalTLS: external, InsecureAuth: c.InsecureAuth, AuthBackend: c.AuthBackend, UTF8: c.Utf8, RequireTLS: c.RequireTLS,
 		Binarymime: c.Binarymime, DSN: c.Dsn, RRVS: c.Rrvs, NoTracer: true})
 	defer srv.Stop()
 	cn, err := srv.Dial()
@@ -161,8 +165,8 @@ func init() {
 			}
 			entries = append(entries, e)
 		}
-		if len(entries) != 3072 {
-			evid.Inconclusive("expected 3072 configuration entries, TLC printed %d", len(entries))
+		if len(entries) != 4096 {
+			evid.Inconclusive("expected 4096 configuration entries, TLC printed %d", len(entries))
 		}
 		const n = 7
 		var mu sync.Mutex
@@ -171,7 +175,7 @@ func init() {
 		nrun := 0
 		for _, e := range entries {
 			variants := []bool{false}
-			if e.Active {
+			if e.Active && e.Cfg.TlsConfigured {
 				variants = []bool{false, true} // via STARTTLS and implicit TLS
 			}
 			for _, implicit := range variants {
